@@ -2,7 +2,7 @@
 C09 — A written shard reads back every document and all metadata.  Property theorems.
 (The model is ZoektModel/C09/{Coders,Postings,Model}.lean, the statement ZoektModel/C09/Spec.lean.)
 -/
-import ZoektModel.C09.Final
+import ZoektModel.C09.Skip
 namespace ZoektModel.C09
 open ZoektModel
 
@@ -428,6 +428,21 @@ theorem add_checks_give_bounds (secs : List (Nat × Nat)) (len : Nat) (h1 : prop
     (h2 : overlapFree secs = true) (h3 : lastEnd secs ≤ len) : BoundsOk len (secs.flatMap fun p => [p.1, p.2]) :=
   boundsOk_of_checks secs len h1 h2 h3
 
+/-- **skip_decision_spec.** `DocChecker.Check`, for every content: empty → accepted; fewer than 3 bytes → too small; a NUL byte
+    → binary; otherwise "too many trigrams" exactly when the file is not exempt, has more than `max + 2` bytes, and the
+    number of distinct trigrams of its decoded runes (the length of any duplicate-free enumeration `u` of that set) exceeds
+    `max` — the early exit of the counting loop and the start-of-file quirk change nothing. (`Builder.Add` puts "too large"
+    in front: `builderSkip`.) -/
+theorem skip_decision_spec (content : Bytes) (max : Nat) (allow : Bool) (u : List Nat) (hu : u.Nodup)
+    (hmem : ∀ g, g ∈ u ↔ g ∈ windows ((decodeAll content).map (·.r))) :
+    docCheck content max allow =
+      if content.length = 0 then 0
+      else if content.length < 3 then 2
+      else if content.contains 0 then 3
+      else if content.length - 2 ≤ max ∨ allow = true then 0
+      else if u.length > max then 4 else 0 :=
+  docCheck_spec content max allow u hu hmem
+
 /-- one posting list: the bytes appended for increasing rune offsets decode to exactly those offsets -/
 theorem postings_roundtrip (offs : List Nat) (h : Increasing 0 offs) :
     fromDeltas (pushAll PL.empty offs).data = some (u32s offs) :=
@@ -457,6 +472,7 @@ def exDocs : List Doc := [
 example : (match SB.addAll exRepo (SB.new PB.fresh PB.fresh) exDocs with | .ok _ => true | _ => false) = true := by decide
 example : exRepo.branches.Nodup ∧ exRepo.branches.length ≤ 64 := by decide
 example : Denotes [0xC3, 0xA9, 0x61] 5 2 6 := by unfold Denotes; decide
+example : docCheck [97, 98, 99, 100, 101] 2 false = 4 ∧ docCheck [97, 97, 97, 97, 97] 2 false = 0 := by decide
 example : Increasing 0 [0, 5, 300] := by simp [Increasing]
 example : rejected ⟨[98], [0, 1], [], [], [], [], 0, 1, 0, [], []⟩ = true := by decide
 
